@@ -209,9 +209,23 @@ def _drop_cfg_test(text, counts):
     return text
 
 
-def normalise(text, counts, renames=None, keep_derive=('Clone', 'Copy'), keep_fmt=False):
+def _select_cfg(text, counts, name):
+    """N5b (per-function option cfg=<name>): the verified configuration has cfg(<name>) on: `#[cfg(not(<name>))]` + the statement
+    it guards are dropped, `#[cfg(<name>)]` attributes are removed. Reuses the N5 machinery by renaming the attributes."""
+    c2 = {}
+    t = text.replace('#[cfg(not(%s))]' % name, '#[cfg(test)]').replace('#[cfg(%s)]' % name, '#[cfg(not(test))]')
+    if t == text:
+        return text
+    t = _drop_cfg_test(t, c2)
+    counts['N5b_cfg_%s_selected' % name] = counts.get('N5b_cfg_%s_selected' % name, 0) + sum(c2.values())
+    return t
+
+
+def normalise(text, counts, renames=None, keep_derive=('Clone', 'Copy'), keep_fmt=False, cfg=None):
     text = _drop_doc_lines(text, counts)
     text = _drop_cfg_test(text, counts)
+    if cfg:
+        text = _select_cfg(text, counts, cfg)
     if keep_fmt:
         text = _rewrite_format_macros(text, counts)
     text = _replace_macro_calls(text, 'format', 'verif_fmt()', counts, 'N3_format_macro')
@@ -820,7 +834,7 @@ def build_unit(template, repo, variant='A'):
             raw = text[it.start:it.end]
             c = {}
             local_ren = dict(renames)
-            nt = normalise(raw, c, local_ren, keep_fmt=bool(kw.get('fmt')))
+            nt = normalise(raw, c, local_ren, keep_fmt=bool(kw.get('fmt')), cfg=kw.get('cfg'))
             for old_t, new_t, want_n in pending_subst:
                 is_re = not isinstance(old_t, str)
                 k = len(old_t.findall(nt)) if is_re else nt.count(old_t)
